@@ -2,7 +2,7 @@
 
 package c19
 
-// Witness of known finding F19 on the real code (technique of harness/c03's
+// Witness of the former finding F19 (fixed by /repo dd38a4c: Head() must now be 20, 20, 20, 20) on the real code (technique of harness/c03's
 // TestStalePendingWitness): a header type whose Height() parks its caller at the
 // second call made from setLocalHead, i.e. inside
 // `storeHead.Height() >= netHead.Height()`, after the store head was read and
@@ -144,8 +144,10 @@ func (s *phSub) SetVerifier(f func(context.Context, *PH) error) error {
 	return nil
 }
 
-func waitFor(cond func() bool) bool {
-	deadline := time.Now().Add(10 * time.Second)
+func waitFor(cond func() bool) bool { return waitForD(10*time.Second, cond) }
+
+func waitForD(d time.Duration, cond func() bool) bool {
+	deadline := time.Now().Add(d)
 	for time.Now().Before(deadline) {
 		if cond() {
 			return true
@@ -254,7 +256,9 @@ func parkWitness(t *testing.T, reg *vhdr.Registry, w *emit.Writer) {
 	close(gate.rel1)
 	parked2 := false
 	if parked {
-		parked2 = waitFor(func() bool {
+		// (with localHead reading the store head too, sync() no longer asks the stale pending
+		// header for its height, so this second hold is reached only on older code)
+		parked2 = waitForD(3*time.Second, func() bool {
 			select {
 			case <-gate.parked2:
 				return true
